@@ -370,8 +370,20 @@ def p_tower(rng):
     lines = []
     for _ in range(rng.range(3, 9)):
         a, b = tower_operand(rng), tower_operand(rng)
-        op = rng.choice(["+", "-", "*", "/", "-", "=", "<", "expt", "exact->inexact", "number->string", "sqrt"])
-        if op == "/":
+        op = rng.choice(["+", "-", "*", "/", "-", "=", "<", "expt", "exact->inexact", "number->string", "sqrt", "shift", "shift", "bitop", "quotient", "gcd"])
+        if op in ("shift", "bitop", "quotient", "gcd"):
+            # integer-only operations (SRFI 151 and division): fixnum operands whose result needs a bignum convert the fixnum first
+            ia = rng.choice([str(rng.choice([1, -1, 3, 255, -12345, (1 << 61) - 1, -(1 << 61)])), str(bigint(rng, rng.choice([64, 100, 300])))])
+            ib = rng.choice([str(rng.choice([1, -1, 7, 65536, (1 << 61) - 1])), str(bigint(rng, rng.choice([64, 100])))])
+            if op == "shift":
+                lines.append("(write (arithmetic-shift %s %d))" % (ia, rng.choice([1, 3, 30, 61, 62, 63, 64, 65, 100, 128, 200, -1, -30, -64, -100])))
+            elif op == "bitop":
+                lines.append("(write (%s %s %s))" % (rng.choice(["bitwise-and", "bitwise-ior", "bitwise-xor"]), ia, ib))
+            elif op == "quotient":
+                lines.append("(write (list (quotient %s %s) (remainder %s %s) (modulo %s %s)))" % (ia, ib, ia, ib, ia, ib))
+            else:
+                lines.append("(write (list (gcd %s %s) (lcm %s 12)))" % (ia, ib, ia))
+        elif op == "/":
             lines.append("(write (if (zero? %s) 'z (/ %s %s)))" % (b, a, b))
         elif op == "<":
             lines.append("(write (if (and (real? %s) (real? %s)) (< %s %s) 'c))" % (a, b, a, b))
@@ -384,7 +396,7 @@ def p_tower(rng):
         else:
             lines.append("(write (%s %s %s))" % (op, a, b))
         lines.append("(newline)")
-    return "tower", "\n".join(lines), []
+    return "tower", "\n".join(lines), ["(srfi 151)"]
 
 
 def p_compile(rng):
